@@ -1808,6 +1808,12 @@ func (ts *Service) handleUpdateTemplate(w http.ResponseWriter, r *http.Request) 
 	// Update all associated tasks
 	err = ts.updateAllAssociatedTasks(original, updated, taskIds)
 	if err != nil {
+		// The tasks have been rolled back, the template must not keep the new definition either.
+		if original.ID == updated.ID {
+			if rerr := ts.templates.Replace(original); rerr != nil {
+				ts.diag.Error("error rolling back template", rerr, keyvalue.KV("template", original.ID))
+			}
+		}
 		httpd.HttpError(w, err.Error(), true, http.StatusInternalServerError)
 		return
 	}
